@@ -194,6 +194,10 @@ func TestVerif_C11_Rejections(t *testing.T) {
 		}
 		if strings.HasPrefix(kind, "sync-") && rapid.Bool().Draw(rt, "onNewDoc") {
 			sc.Pre = nil
+			sc.Branch = false
+		}
+		if !sc.AllowConflicts {
+			sc.Branch = false
 		}
 		render := sc.String()
 		var violation string
@@ -272,6 +276,9 @@ func vfC11Reject(t testing.TB, sc vfC11Scenario, kind string, rec *kit.Rec) (vio
 				return fmt.Sprintf("request was refused (%v) after reserving sequence(s) %v and did not publish them as unused [%s]", rerr, missing, desc), nil
 			}
 		}
+	}
+	if msg := wd.checkLeaves(); msg != "" {
+		return fmt.Sprintf("request was refused (%v) but %s [%s]", rerr, msg, desc), nil
 	}
 	// the document under the refused write is still served as before
 	if len(sc.Pre) > 0 && !strings.HasPrefix(kind, "user-") && !strings.HasPrefix(kind, "session-") && !strings.HasPrefix(kind, "role-") {
